@@ -20,6 +20,10 @@ CHECKS = {
   text="Stateless model checking of the real implementation: the real ignore::WalkParallel runs under a cooperative replay scheduler (feature verif-hooks) and every interleaving of its hooked synchronisation points is executed up to a preemption bound (iterative preemption bounding, CHESS style), with injected Steal::Retry answers and a visitor Quit injected at every visit index, over all small trees; oracle: termination (deadlock / livelock detection) and exact visit multiset.",
   note="Trusted: crossbeam-deque linearizability (each deque operation is one atomic step; Retry is injected), SC behaviour of the RMW/SeqCst atomics, the scheduler hook itself. Not covered: more than 3 (quick) / 4 (thorough) workers, trees above the size bound, schedules needing more preemptions than the bound.",
   tech="stateless model checking: exhaustive schedule exploration of the real code under a controlled scheduler with a preemption bound"),
+ "C10": dict(cat="exploration", ref="DESIGN.md §4 C10",
+  text="Bounded exhaustive metamorphic enumeration: every content over {a,b,-,\\n} up to length 5/6 (plus CRLF variants) x 33 patterns (empty-matching, anchors, word boundaries, ten that can match a line terminator) x 11/17 flag sets (-i -w -x -v -U -m N --crlf), each group rendered in-process (printers configured as hiargs.rs does) in ten modes and checked against the statement's relations; plus a command-line layer on 3-file trees for per-file counts, exit status, mode normalisation and --stats totals. No hand-written expected outputs.",
+  note="The --count relation is keyed on the strategy actually used (line-by-line: count == matching lines printed; true multi-line: count == count-matches, as the flag documentation defines). Binary files excluded (C14).",
+  tech="bounded exhaustive enumeration with metamorphic (cross-mode) oracles"),
  "C11": dict(cat="model_checking", ref="DESIGN.md §3-E2, §4 C11, Appendix A.6",
   text="Explicit-state exploration of product automata: for every pattern of an enumerated grammar (token strings, a template family exercising the literal extractor, patterns on the extractor's limits and with raw control characters, string literals harvested from the repository's tests) x builder option sets, the REAL matcher's final HIR and extracted inner literals (hooks) are determinised and four automata explorations decide, over ALL byte strings: no match contains a terminator byte; an accepted pattern means on terminator-free lines what it means as written; every byte in non_matching_bytes occurs in no match; a matching line contains one of the candidate literals. Witnesses and one shortest path per product state are replayed on the real RegexMatcher.",
   note="Trusted: regex-syntax translation and regex-automata determinisation as the meaning of patterns. Unicode word boundaries are decided over ASCII lines (the DFA quits on non-ASCII). Under CRLF the matcher is documented never to match \\r, so 'as written' is judged on lines without \\r and \\n.",
